@@ -149,6 +149,12 @@ avx_rule_loadupib_avx2 (OrcCompiler *compiler, void *user, OrcInstruction *insn)
   const int size = src->size << compiler->loop_shift;
   switch (size) {
     case 1:
+      /* a single element always has an even index: only one source byte
+       * may be read */
+      orc_x86_emit_mov_memoffset_avx (compiler, 1, offset, ptr_reg, dest->alloc,
+          FALSE);
+      orc_avx_sse_emit_movdqa (compiler, dest->alloc, tmp);
+      break;
     case 2:
       orc_x86_emit_mov_memoffset_avx (compiler, 2, offset, ptr_reg, dest->alloc,
           FALSE);
